@@ -15,12 +15,16 @@ import (
 	"time"
 
 	"github.com/VKCOM/tl/internal/puregen"
+	"github.com/VKCOM/tl/internal/tlcodegen"
 )
 
 func init() {
-	ops["tool.outdir"] = func(a []string) string { return opOutdir(a, false) }
-	ops["tool.outcli"] = func(a []string) string { return opOutdir(a, true) }
-	ops["tool.genlist"] = opGenList
+	ops["tool.outdir"] = func(a []string) string { return opOutdir(a, "pure") }
+	ops["tool.outcli"] = func(a []string) string { return opOutdir(a, "purecli") }
+	ops["tool.loutdir"] = func(a []string) string { return opOutdir(a, "legacy") }
+	ops["tool.loutcli"] = func(a []string) string { return opOutdir(a, "legacycli") }
+	ops["tool.genlist"] = func(a []string) string { return opGenList(a, false) }
+	ops["tool.lgenlist"] = func(a []string) string { return opGenList(a, true) }
 }
 
 var oldTime = time.Date(2001, 2, 3, 4, 5, 6, 0, time.UTC)
@@ -64,6 +68,9 @@ var reGoUnf = regexp.MustCompile(`^package   p\n\nconst  X = "f([a-z0-9]*)"\n$`)
 var rePlain = regexp.MustCompile(`^[a-z][a-z0-9]*$`)
 
 func idOf(key string, content string, cli bool) string {
+	if !cli && key == "tlgen2_version.txt" && strings.HasPrefix(content, "tlgen version:") {
+		return "mk" // marker written by the legacy WriteToDir itself
+	}
 	if cli {
 		if rePlain.MatchString(content) && len(content) < 12 && strings.HasPrefix(content, "z") {
 			return content
@@ -212,7 +219,24 @@ func runTl2genGo(outdir string, optid int, schemaPaths []string) string {
 	return v
 }
 
-func stepResult(verdictOK bool, before, after tree, cli bool) string {
+// option sets of real legacy `tlgen -language=cpp` runs
+var legacyOptSets = [][]string{
+	{"-language=cpp"},
+	{"-language=cpp", "-cpp-generate-meta", "-cpp-generate-factory"},
+	{"-language=cpp", "-cpp-namespace=vk::tl", "-cpp-generate-common-makefile=false"},
+}
+
+func runTlgenCpp(outdir string, optid int, schemaPaths []string) string {
+	if optid < 0 || optid >= len(legacyOptSets) {
+		return "bad-op"
+	}
+	args := append([]string{"-outdir=" + outdir}, legacyOptSets[optid]...)
+	args = append(args, schemaPaths...)
+	v, _ := runCLI(os.Getenv("VERIF_TLGEN"), args...)
+	return v
+}
+
+func stepResult(verdict string, before, after tree, cli bool) string {
 	var w, x, tl []string
 	for k := range after.files {
 		if !after.mtime[k].Equal(oldTime) {
@@ -225,20 +249,19 @@ func stepResult(verdictOK bool, before, after tree, cli bool) string {
 			x = append(x, k)
 		}
 	}
-	o := "ok"
-	if !verdictOK {
-		o = "ref"
-	}
+	o := verdict
 	return fmt.Sprintf("%s;w=%s;x=%s;T=%s;D=%s", o, showList(w), showList(x), showList(tl), showList(after.dirs))
 }
 
 // tool.outdir <marker> <steps>   steps: g:<k=id,…> | p:<k=id> | d:<dir> | r:<k>, separated by ';'
 // tool.outcli <marker> <steps>   same, but g:<claimed k=sha,…>:<optid>:<hex schema> runs the real tl2gen binary
-func opOutdir(args []string, cli bool) string {
+func opOutdir(args []string, mode string) string {
 	if len(args) != 2 {
 		return "bad-op"
 	}
-	marker := args[0]
+	cli := strings.HasSuffix(mode, "cli")
+	legacy := strings.HasPrefix(mode, "legacy")
+	marker := args[0] // for the legacy writer: the language ("cpp" | "php"); its marker file name is fixed in the source
 	cdir := caseDir()
 	defer os.RemoveAll(cdir)
 	root := filepath.Join(cdir, "sb")
@@ -266,7 +289,7 @@ func opOutdir(args []string, cli bool) string {
 			}
 			resetTimes(root)
 			before := readTree(root, outdir)
-			var okv bool
+			okv := "ref"
 			if cli {
 				if len(f) != 4 {
 					return "bad-op"
@@ -280,18 +303,39 @@ func opOutdir(args []string, cli bool) string {
 					return "bad-op"
 				}
 				paths := writeSchemas(filepath.Join(cdir, fmt.Sprintf("in%d", si)), text)
-				v := runTl2genGo(outdir, optid, paths)
+				var v string
+				if legacy {
+					v = runTlgenCpp(outdir, optid, paths)
+				} else {
+					v = runTl2genGo(outdir, optid, paths)
+				}
 				if v == "panic" || v == "crash" || v == "bad-op" {
 					return v
 				}
-				okv = v == "ok"
+				if v == "ok" {
+					okv = "ok"
+				}
+			} else if legacy {
+				cm := map[string]string{}
+				for _, kv := range code {
+					cm[kv[0]] = contentOf(kv[0], kv[1])
+				}
+				err := tlcodegen.VerifNewGen(marker, cm).WriteToDir(outdir)
+				switch {
+				case err == nil:
+					okv = "ok"
+				case strings.Contains(err.Error(), "generated twice"):
+					okv = "dup"
+				}
 			} else {
 				od := puregen.OutDir{Code: map[string]string{}}
 				for _, kv := range code {
 					od.Code[kv[0]] = contentOf(kv[0], kv[1])
 				}
 				opts := puregen.Options{Outdir: outdir, ErrorWriter: io.Discard}
-				okv = od.Write(&opts, marker) == nil
+				if od.Write(&opts, marker) == nil {
+					okv = "ok"
+				}
 			}
 			after := readTree(root, outdir)
 			results = append(results, stepResult(okv, before, after, cli))
@@ -335,7 +379,7 @@ func opOutdir(args []string, cli bool) string {
 
 // helper (not tied): file list of one real generation into a fresh directory
 // tool.genlist <optid> <hex schema>  ->  ok <k=sha,…> | err
-func opGenList(args []string) string {
+func opGenList(args []string, legacy bool) string {
 	if len(args) != 2 {
 		return "bad-op"
 	}
@@ -358,7 +402,12 @@ func opGenList(args []string) string {
 		panic(err)
 	}
 	paths := writeSchemas(filepath.Join(cdir, "in"), text)
-	v := runTl2genGo(outdir, optid, paths)
+	var v string
+	if legacy {
+		v = runTlgenCpp(outdir, optid, paths)
+	} else {
+		v = runTl2genGo(outdir, optid, paths)
+	}
 	if v != "ok" {
 		return v
 	}
